@@ -56,6 +56,12 @@ CLAIMS["C14"] = dict(
   technique="table agreement (constants vs. map literal), writer/reader type agreement over allocations, field-coverage analysis of converters",
   ref="DESIGN.md §3 C14")
 
+CLAIMS["C15"] = dict(
+  text="Structural necessary conditions of the export->import round trip, decided from source for all inputs: every purl type the library emits or declares is accepted by purl.validType (called by both importers through purl.FromString); every output format the CLI accepts reaches a writer that has a row/case for it, each SPDX writer row calls Write of exactly one tools-golang format package and the importer's extension table reads the same package, the CycloneDX writer's file formats are decoded by importer rows whose names announce that syntax; the SPDX exporter's external-reference type is one of the constants the importer's purl branch compares against and the importers parse exactly the locator / PackageURL field of the entry they look at, store the parsed URL and hand it back unchanged from ToPURL; the decisions that leave a package out of an export or an entry out of an import are exactly the audited ones (rendered by the definition of the tested value); every Supplier/Originator literal is expressible in tag-value (2 genuine exceptions recorded as known findings: spdx23-tag-value exports are rejected by the importer). Level 'other': the serialisers/parsers are third-party code that is not analysed, so byte-level escaping, multiset equality and duplicates are not decided.",
+  note="Trusted: go/ssa, evaluation of package-level map literals (single initialising store, no other writer), tools-golang v0.5.3 supplier grammar read from its tag-value reader, cyclonedx-go decodes what it encodes per BOMFileFormat.",
+  technique="table agreement (writer rows vs importer rows vs CLI list), constant/field provenance of reference strings, frozen omission-decision table, literal-shape rule against the reader grammar",
+  ref="DESIGN.md §3 C15")
+
 CLAIMS["C06"] = dict(
   text="Effect analysis and containment rules: in all first-party code reachable from the 58 filesystem extractors and filesystem.Run the only file-system / process / database effects are the audited GetRealPath temp copy and its removal; bbolt databases are opened with ReadOnly; GetRealPath's temp directory is removed by every caller (filepath.Dir of the returned path) and on its own error exits; in unpack every MkdirAll/WriteFile/Symlink happens only after the lexical '..' rejection and a passed pathOutsideBaseDirectory(dir, fullPath) on that same path, and that check is filepath.Rel-based, rejects both '..' and '../', and treats errors as outside; layer scanning writes only Join(layer dir, cleaned name) after its '../' test, never creates links on disk, and cleans its temp directory on every error exit. Level 'other': who-may-mutate and dominance facts for all inputs; effects inside third-party code, symlink chains that become escaping through later entries, detectors and standalone extractors are not decided.",
   note="Trusted: CHA reachability over first-party code, the primitive table in c06.go, third-party open modes (go-rpmdb, saferwall/pe).",
